@@ -262,6 +262,9 @@ func Implies(a, b *Term) *Term {
 	if b == False {
 		return Not(a)
 	}
+	if a == b {
+		return True
+	}
 	return mk("=>", "", SBool, a, b)
 }
 
